@@ -802,6 +802,29 @@ func parseContractFile(path, pkg string) (*ContractFile, error) {
 			}
 			cf.Externs = append(cf.Externs, ext)
 		case "requires", "ensures", "modifies":
+			if rc.kw == "modifies" {
+				// several targets separated by top-level commas
+				parts := splitTopLevel(rc.text)
+				if len(parts) > 1 {
+					var tgt *[]*Clause
+					switch {
+					case fn != nil:
+						tgt = &fn.Modifies
+					case ext != nil:
+						tgt = &ext.Modifies
+					default:
+						return nil, errf("modifies outside func/extern")
+					}
+					for _, p := range parts {
+						c, err := mkClause(rawClause{"modifies", p, rc.line}, path)
+						if err != nil {
+							return nil, err
+						}
+						*tgt = append(*tgt, c)
+					}
+					continue
+				}
+			}
 			c, err := mkClause(rc, path)
 			if err != nil {
 				return nil, err
@@ -962,6 +985,28 @@ func parseContractFile(path, pkg string) (*ContractFile, error) {
 		}
 	}
 	return cf, nil
+}
+
+// splitTopLevel splits at commas that are not nested in parentheses, brackets or braces.
+func splitTopLevel(s string) []string {
+	var out []string
+	d := 0
+	start := 0
+	for i := 0; i < len(s); i++ {
+		switch s[i] {
+		case '(', '[', '{':
+			d++
+		case ')', ']', '}':
+			d--
+		case ',':
+			if d == 0 {
+				out = append(out, strings.TrimSpace(s[start:i]))
+				start = i + 1
+			}
+		}
+	}
+	out = append(out, strings.TrimSpace(s[start:]))
+	return out
 }
 
 func matchParen(s string, lp int) int {
